@@ -114,6 +114,35 @@ def sweep(fx, R):
                     R.holds('H1', name, 'decided by the static-cache rule (E-PURE) of this property', fx.rel(f['loc']), 'E-PURE')
                 else:
                     R.undecided('H1', name, 'the function keeps state across calls in the non-const static `%s`; its results were read as functions of the arguments only' % v['name'])
+    # H1, namespace-scope form: a mutable variable outside any object (file scope, static or thread_local) that a member function fills with a value computed from THIS object's state and hands back
+    for f in sorted(fns, key=lambda f: f['q']):
+        if not f.get('cls') or f.get('ctor') or f.get('body') is None:
+            continue
+        written, readback = {}, set()
+        for y in walk(f['body']):
+            if not isinstance(y, dict):
+                continue
+            if (y.get('k') == 'Bin' and y.get('op') == '=') or (y.get('k') == 'Op' and y.get('op') == '=' and len(y.get('args', [])) == 2):
+                l_, r_ = (y['l'], y['r']) if y.get('k') == 'Bin' else (y['args'][0], y['args'][1])
+                l0 = strip_casts(l_)
+                if l0.get('k') == 'Ref' and l0.get('rk') == 'global' and l0.get('mut'):
+                    uses_this = any(isinstance(z, dict) and (z.get('k') == 'This' or (z.get('k') == 'Member' and z.get('field') and z.get('cls') == f['cls'])) for z in walk(r_))
+                    if uses_this:
+                        written[l0['id']] = (l0['name'], y)
+            if y.get('k') == 'Return' and y.get('e') is not None:
+                for z in walk(y['e']):
+                    if isinstance(z, dict) and z.get('k') == 'Ref' and z.get('rk') == 'global' and z.get('mut'):
+                        readback.add(z['id'])
+        for gid, (gname, node) in written.items():
+            inst = '%s:shared-result:%s' % (f['q'].split('(')[0], gname)
+            found += 1
+            if gid in readback:
+                R.violated('H1', inst, '`%s` is a namespace-scope variable (one per thread or per process, not per object): %s() stores in it a value computed from THIS object\'s state (`%s`) and returns it on later '
+                           'calls - another object of the class (another anchor, another configuration) that asks with the same argument is answered with this object\'s result; invalidating it in this object\'s setters '
+                           'does not help, the other object never called them' % (gname, f['name'], pp(node)[:100]), fx.rel(node.get('loc') or f['loc']), 'E-PURE')
+            else:
+                R.undecided('H1', inst, 'a namespace-scope variable is filled from this object\'s state; how it is read back was not followed')
+
     def base_member(e):
         e = strip_casts(e) if e is not None else None
         for _ in range(6):
@@ -240,6 +269,29 @@ def sweep(fx, R):
                                    'OLD %s (or from nothing, for a default-constructed object that is configured afterwards)' % (D, S_, pp(i['e'])[:80], setters[0], S_, D, S_), fx.rel(g['loc']), 'E-STATE')
                     elif used:
                         R.holds('H8', inst, 'derived from %s, which no method re-assigns without it' % S_, fx.rel(g['loc']), 'E-STATE')
+    # ---- H13: a by-reference parameter read after a stored value of its type, which an accessor hands out by reference, has been given another value (argument aliasing) --------
+    # (the rule C14 Y6 was written for, over every class this property reads; C14 keeps its own instance names)
+    if getattr(R, 'prop', None) != 'C14':
+        from .props import C14 as _c14
+
+        class _Fwd:
+            def __init__(self, R_):
+                self.R = R_
+
+            def violated(self, rule, inst, msg, *a, **k):
+                self.R.violated('H13', inst, msg.replace('caster.', 'object.'), *a, **k)
+
+            def holds(self, rule, inst, *a, **k):
+                self.R.holds('H13', inst, *a, **k)
+
+            def undecided(self, rule, inst, *a, **k):
+                pass                      # classes without by-reference value parameters / reference accessors are simply not concerned
+        for cls in classes:
+            if cls in fx.records and not cls.startswith('romea::core::RayCasting<'):
+                try:
+                    _c14.check_parameter_aliasing(fx, _Fwd(R), cls, cls.split('::')[-1])
+                except Exception:
+                    pass
     # ---- H12: a reference member bound to ANOTHER MEMBER of the same object, in a class whose copy constructor is the implicit one: the copy's reference still points into the original -----------
     for cls in classes:
         rec = fx.records.get(cls) or {}
